@@ -306,7 +306,7 @@ theorem foldl_omerge_mem (mp : α → α → α) (hs : Selective mp) (l : List (
           · right; simp [← h1, e]
     · exact Or.inr (by simp [h1])
 
-/-- As-is combination: the result is the payload of the first file that has the path. -/
+/-- Old (`keepFirst`) combination: the result is the payload of the first file that has the path. -/
 theorem combine_keepFirst (l : List (Option α)) :
     combine keepFirst l = l.findSome? id := by
   have key : ∀ (l : List (Option α)) (a : Option α),
@@ -320,7 +320,7 @@ theorem combine_keepFirst (l : List (Option α)) :
       cases a <;> cases x <;> simp [omerge, keepFirst, List.findSome?_cons]
   simpa [combine] using key l none
 
-/-- With the fix: a placeholder result means that nothing but placeholders was merged. -/
+/-- `fill`: a placeholder result means that nothing but placeholders was merged. -/
 theorem foldl_fill_ph [DecidableEq α] (ph : α) (l : List (Option α)) (a : Option α)
     (h : l.foldl (omerge (fill ph)) a = some ph) :
     (a = none ∨ a = some ph) ∧ ∀ x ∈ l, x = none ∨ x = some ph := by
@@ -353,7 +353,7 @@ theorem foldl_fill_ph [DecidableEq α] (ph : α) (l : List (Option α)) (a : Opt
 def DefinedOnce (ph : α) (l : List (Option α)) : Prop :=
   ∀ v w, some v ∈ l → some w ∈ l → v ≠ ph → w ≠ ph → v = w
 
-/-- With the fix, the combined payload is determined by the *set* of per-file payloads. -/
+/-- `fill`: the combined payload is determined by the *set* of per-file payloads. -/
 theorem combine_fill_spec [DecidableEq α] (ph : α) (l : List (Option α)) (hd : DefinedOnce ph l) :
     (∀ v, v ≠ ph → some v ∈ l → combine (fill ph) l = some v) ∧
     ((∀ v, some v ∈ l → v = ph) → some ph ∈ l → combine (fill ph) l = some ph) ∧
@@ -386,7 +386,7 @@ theorem combine_fill_spec [DecidableEq α] (ph : α) (l : List (Option α)) (hd 
   · intro hall
     exact (foldl_omerge_none (fill ph) l none).mpr ⟨rfl, hall⟩
 
-/-- With the fix: two lists of per-file payloads with the same members combine to the same payload. -/
+/-- `fill`: two lists of per-file payloads with the same members combine to the same payload. -/
 theorem combine_fill_congr [DecidableEq α] (ph : α) (l l' : List (Option α))
     (hm : ∀ x, x ∈ l ↔ x ∈ l') (hd : DefinedOnce ph l) :
     combine (fill ph) l = combine (fill ph) l' := by
@@ -410,7 +410,7 @@ theorem combine_fill_congr [DecidableEq α] (ph : α) (l l' : List (Option α))
         | some v => exact absurd (hall v hx ▸ hx) h2
       rw [a3 hn, b3 (fun x hx => hn x ((hm _).mpr hx))]
 
-/-- As-is: the same holds only when *all* payloads at the path agree, placeholders included. -/
+/-- `keepFirst`: the same holds only when *all* payloads at the path agree, placeholders included. -/
 theorem combine_keepFirst_congr (l l' : List (Option α)) (hm : ∀ x, x ∈ l ↔ x ∈ l')
     (ha : ∀ v w, some v ∈ l → some w ∈ l → v = w) :
     combine keepFirst l = combine keepFirst l' := by
